@@ -477,6 +477,7 @@ func e2eComparable(evs []Event, q Query, l LayoutCfg) bool {
 
 type evalCtx struct {
 	sum   *vhlib.Summary
+	win   []string
 	e2e   []string
 	mu    sync.Mutex
 	cfg   vhlib.Config
@@ -505,6 +506,9 @@ func (c *evalCtx) evaluate(st Stream, res streamResult) {
 		if out.Ingested != len(st.Events) || len(out.Obs) != len(st.Queries) {
 			c.sum.HarnessError(fmt.Sprintf("stream %s layout %s: ingested %d of %d, %d observations", st.Name, l.Name, out.Ingested, len(st.Events), len(out.Obs)))
 			continue
+		}
+		if l.Windows {
+			c.windowCases(st, l, out)
 		}
 		for qi, q := range st.Queries {
 			got := out.Obs[qi]
@@ -619,6 +623,66 @@ func (c *evalCtx) evaluate(st Stream, res streamResult) {
 			}
 			c.sum.Fail(class, detail, map[string]interface{}{"stream": st.Name, "events": docs, "layout": l, "query": q.Text, "got": got, "want": want[qi]})
 		}
+	}
+}
+
+// getLastRecord() windows observed during the real ingest (hook on AfterWritingToSegment): one Coq case per block;
+// and the property itself on the observation: the window of a column the event lacks is the single back-fill byte,
+// never bytes of an earlier record
+func (c *evalCtx) windowCases(st Stream, l LayoutCfg, out *WorkerOut) {
+	byId := map[int]WinObs{}
+	for _, w := range out.Windows {
+		byId[w.Id] = w
+	}
+	if len(out.Windows) != len(st.Events) {
+		c.sum.HarnessError(fmt.Sprintf("stream %s layout %s: %d window observations for %d events", st.Name, l.Name, len(out.Windows), len(st.Events)))
+		return
+	}
+	for _, blk := range layoutBlocks(l, len(st.Events)) {
+		var evItems []string
+		inBlock := map[string]bool{}
+		for _, ei := range blk {
+			e := st.Events[ei]
+			w := byId[e.Id]
+			cells := []string{fmt.Sprintf("(%s, WInt %s)", cbytes("id"), cz(int64(e.Id)))}
+			inBlock["id"] = true
+			for _, k := range e.Order {
+				v := e.Fields[k]
+				inBlock[k] = true
+				switch v.Kind {
+				case "i":
+					cells = append(cells, fmt.Sprintf("(%s, WInt %s)", cbytes(k), cz(v.I)))
+				case "f":
+					cells = append(cells, fmt.Sprintf("(%s, WFlt %d%%N)", cbytes(k), math.Float64bits(v.F)))
+				default:
+					cells = append(cells, fmt.Sprintf("(%s, WStr %s)", cbytes(k), cbytes(v.S)))
+				}
+			}
+			var names []string
+			for k := range w.Cols {
+				names = append(names, k)
+			}
+			sort.Strings(names)
+			var obs []string
+			for _, k := range names {
+				obs = append(obs, fmt.Sprintf("(%s, %s)", cbytes(k), vhlib.CoqBytes(w.Cols[k])))
+				if len(w.Cols[k]) == 0 {
+					obs[len(obs)-1] = fmt.Sprintf("(%s, @nil N)", cbytes(k))
+				}
+			}
+			evItems = append(evItems, fmt.Sprintf("(%s, %s)", vhlib.CoqList(cells), vhlib.CoqList(obs)))
+			c.sum.Eval(fmt.Sprintf("window/%s/%s/%d", st.Name, l.Name, e.Id), true)
+			c.sum.Count("direct/ingest_window")
+			for k := range inBlock {
+				if _, has := e.Fields[k]; has || k == "id" {
+					continue
+				}
+				if win, ok := w.Cols[k]; ok && !(len(win) == 1 && win[0] == 0x13) {
+					c.sum.Fail("ingest_window_shows_earlier_record", fmt.Sprintf("after ingesting %s (no field %q) getLastRecord() of column %q is % x instead of the back-fill byte 13: the persistent-query evaluator sees a value of an earlier event", e.doc(), k, k, win), map[string]interface{}{"stream": st.Name, "layout": l, "event": e.doc(), "column": k, "window": fmt.Sprintf("% x", win)})
+				}
+			}
+		}
+		c.win = append(c.win, vhlib.CoqList(evItems))
 	}
 }
 
@@ -959,4 +1023,5 @@ func runMeta(cfg vhlib.Config, sum *vhlib.Summary, rng *vhlib.Rng) {
 		}
 	}
 	shard(sum, cfg.Out, "cases_e2e", "check_e2e", ctx.e2e, 350)
+	shard(sum, cfg.Out, "cases_window", "check_window", ctx.win, 60)
 }
